@@ -3,6 +3,7 @@ package exec
 import (
 	"fmt"
 	"go/types"
+	"math"
 	"net"
 	"strings"
 
@@ -358,6 +359,13 @@ func init() {
 		},
 		"math.Float64frombits": func(e *Exec, t *Thread, a []Value, g bool) (Value, bool) {
 			return done(e.C.FFromBits(a[0].(*term.T)))
+		},
+		// math.Max / math.Min with Go's special cases (+Inf / -Inf first, then NaN, then signed zeros)
+		"math.Max": func(e *Exec, t *Thread, a []Value, g bool) (Value, bool) {
+			return done(e.fMaxMin(a[0].(*term.T), a[1].(*term.T), true))
+		},
+		"math.Min": func(e *Exec, t *Thread, a []Value, g bool) (Value, bool) {
+			return done(e.fMaxMin(a[0].(*term.T), a[1].(*term.T), false))
 		},
 		"math.Abs":   func(e *Exec, t *Thread, a []Value, g bool) (Value, bool) { return done(e.C.FAbs(a[0].(*term.T))) },
 		"math.Floor": func(e *Exec, t *Thread, a []Value, g bool) (Value, bool) { return done(e.C.FRound(a[0].(*term.T), 3)) },
@@ -777,11 +785,45 @@ func init() {
 			if iv.T == nil {
 				return done(&RValue{})
 			}
+			if m, isMap := iv.V.(*Map); isMap {
+				return done(&RValue{T: iv.T, V: m})
+			}
 			p, ok := iv.V.(Ptr)
 			if !ok {
 				e.unsupported("reflect.ValueOf of a non-pointer value")
 			}
 			return done(&RValue{P: p, T: iv.T})
+		},
+		"(reflect.Value).MapKeys": func(e *Exec, t *Thread, a []Value, g bool) (Value, bool) {
+			rv := a[0].(*RValue)
+			m, ok := rv.V.(*Map)
+			if !ok || rv.T == nil {
+				e.unsupported("reflect.Value.MapKeys of a non-map")
+			}
+			mt := rv.T.Underlying().(*types.Map)
+			n := 0
+			if m != nil {
+				n = len(m.Keys)
+			}
+			vt := e.World.Pkgs["reflect"].Type("Value").Type()
+			arr := e.newArrayObj(vt, n)
+			for i := 0; i < n; i++ {
+				arr.V.(*Array).E[i] = &RValue{T: mt.Key(), V: m.Keys[i]}
+			}
+			return done(Slice{Arr: arr, Len: n, Cap: n})
+		},
+		"(reflect.Value).String": func(e *Exec, t *Thread, a []Value, g bool) (Value, bool) {
+			rv := a[0].(*RValue)
+			if s, ok := rv.V.(*Str); ok {
+				return done(s)
+			}
+			e.unsupported("reflect.Value.String of a non-string value")
+			return done(nil)
+		},
+		"internal/bytealg.MakeNoZero": func(e *Exec, t *Thread, a []Value, g bool) (Value, bool) {
+			n := int(e.intArg(a[0]))
+			arr := e.newArrayObj(types.Typ[types.Uint8], n) // zeroed: a superset of "no promise about the content"
+			return done(Slice{Arr: arr, Len: n, Cap: n})
 		},
 		"reflect.Indirect": func(e *Exec, t *Thread, a []Value, g bool) (Value, bool) {
 			rv := a[0].(*RValue)
@@ -1242,6 +1284,32 @@ func (e *Exec) sleep(t *Thread, d *term.T, g bool) (Value, bool) {
 }
 
 // floatBits implements math.Float32bits / Float64bits.
+func (e *Exec) fMaxMin(x, y *term.T, max bool) *term.T {
+	c := e.C
+	inf := c.F64(math.Inf(1))
+	nan := c.F64(math.NaN())
+	zero := c.F64(0)
+	if !max {
+		inf = c.F64(math.Inf(-1))
+	}
+	lt := func(a, b *term.T) *term.T { return c.FCmp(term.OpFLt, a, b) }
+	var pick, zeros *term.T
+	if max {
+		zeros = c.FBin(term.OpFAdd, x, y) // (-0)+(+0) = +0, (-0)+(-0) = -0
+	} else {
+		zeros = c.FNeg(c.FBin(term.OpFAdd, c.FNeg(x), c.FNeg(y)))
+	}
+	eq := c.Ite(c.FCmp(term.OpFEq, x, zero), zeros, x)
+	if max {
+		pick = c.Ite(lt(x, y), y, c.Ite(lt(y, x), x, eq))
+	} else {
+		pick = c.Ite(lt(x, y), x, c.Ite(lt(y, x), y, eq))
+	}
+	isInf := c.BOr(c.FCmp(term.OpFEq, x, inf), c.FCmp(term.OpFEq, y, inf))
+	isNaN := c.BOr(c.FIsNaN(x), c.FIsNaN(y))
+	return c.Ite(isInf, inf, c.Ite(isNaN, nan, pick))
+}
+
 func (e *Exec) floatBits(f *term.T) *term.T {
 	if b := e.C.FBitsOf(f); b != nil {
 		return b
